@@ -94,3 +94,35 @@ def run(ctx):
                            'the `nullable` argument of ColumnBuilderImpl::new_from_datatype must come from column.is_nullable()',
                            [site(g, c.bb)])
         ctx.anchor(R3, 'RowsetBuilder::new: new_from_datatype(.., nullable, ..)', found)
+
+    R4 = 'C16-R4'
+    ctx.rule(R4, 'PRIMARY KEY implies NOT NULL for exactly the key the table gets: bind_create_table marks as non-nullable the '
+                 'columns indexed by the same ordered_pk_ids value it stores into CreateTable (column option and table constraint alike)')
+    from tmpl import origin_locals
+    grp = prog.group('binder::create_table::<impl binder::Binder>::bind_create_table')
+    if ctx.anchor(R4, 'Binder::bind_create_table', bool(grp)):
+        found_ct = False
+        for g in grp:
+            for bb, st in g.aggregates('binder::create_table::CreateTable'):
+                rv = st['rv']
+                if 'ordered_pk_ids' not in rv['fields']:
+                    continue
+                found_ct = True
+                ctx.functions_analysed.add(g.name)
+                op = rv['ops'][rv['fields'].index('ordered_pk_ids')]
+                if op['k'] == 'const':
+                    ctx.ob(R4, 'bind_create_table·pk-not-null', False, 'ordered_pk_ids is a constant')
+                    continue
+                key_locals = {l for l in origin_locals(g, op['pl']['l']) if 'std::vec::Vec<u32>' in g.local_ty(l)}
+                sets = [c for c in g.calls if (c.fn or '').endswith('ColumnCatalog::set_nullable') and len(c.args) >= 2
+                        and c.args[1]['k'] == 'const' and 'false' in c.args[1].get('v', '')]
+                linked = [c for c in sets if c.args[0]['k'] != 'const' and origin_locals(g, c.args[0]['pl']['l'], depth=20) & key_locals
+                          and g.reaches(c.bb, bb)]
+                ctx.ob(R4, 'bind_create_table·pk-not-null', bool(linked),
+                       f'set_nullable(false) calls in bind_create_table: {len(sets)}; indexed through the stored ordered_pk_ids '
+                       f'({sorted(str(g.var_name(l) or l) for l in key_locals)}) before CreateTable is built: {len(linked)}',
+                       [site(g, c.bb) for c in sets] or [site(g, bb)],
+                       what='a key declared with a table-level PRIMARY KEY(..) constraint is not marked NOT NULL: NULL can be '
+                            'inserted into a primary-key column')
+        ctx.anchor(R4, 'CreateTable { ordered_pk_ids, .. } built in bind_create_table', found_ct)
+
